@@ -16,6 +16,8 @@ q = ["iso",  e, i, j]                  GraphMatcherEngine.isomorphic(g_i, g_j)
   | ["obj", "iso"|"maps", e, i|None, j|None]   an engine method handed a non-Graph argument (None): TypeError before anything else
   | ["fgit", [class1, class2], i, j, use_defaults, fast]   find_graph_isomorphism on two networkx graph classes (different classes: None)
   | ["edit", i, k]                     the caller edits graph object i in place into graph value k
+  | ["new", j, i, mode, k]             object j is replaced by a NEW object derived from object i (copy / subgraph().copy() / relabel_nodes /
+                                       Graph(g) / deepcopy / a fresh Graph()) and edited by small steps into graph value k
 Observable: one entry per query in history order — the answer AND the intermediate values (iso: [verdict, [host index, pattern index,
 _pre_check's answer, GraphMatcher method that decided]]; maps: [count, mapping set or [] when the set is not determined by the
 specification (max_mappings set, or the single-call isomorphism shortcut), [_pre_check's answer, method]]; sub: [answer or [99, exception
@@ -86,14 +88,19 @@ TRUSTED_BASE = [
     "exactly the label-preserving (induced) monomorphisms — premises vf2b_contract / enum_contract of the theorems, proved for the "
     "verified instances has_mono / monos_g (lib/Mono.v) that the model run uses, and monitored on every case by comparing networkx's "
     "answers with them",
-    "CPython WeakKeyDictionary keyed by graph object identity (modelled as a map keyed by the graph's index in the case)",
+    "CPython WeakKeyDictionary keyed by graph object identity (modelled as a map keyed by the graph's index in the case; a replaced "
+    "object loses its entries: HNew / drop_obj)",
+    "the recording subclass of networkx's GraphMatcher and the reporting wrapper of _pre_check that impl() installs to observe "
+    "intermediate values leave the behaviour unchanged (the property oracle runs on the untouched modules)",
+    "proved libraries lib/Mono.v (enumerator), lib/Reach.v (saturation), lib/C01_GraphLemmas.v (induced subgraphs)",
 ]
 ASSUMPTIONS = ["simple undirected graphs without self-loops (gwf: distinct node ids, edges join distinct nodes, one attribute dict per unordered pair)",
                "hcount, when present, is a non-negative int",
                "attribute values are JSON scalars or (nested) lists of them compared with Python ==; values of one attribute are mutually "
                "comparable and of one kind (absent is allowed; a list and a tuple with the same items are not told apart by the encoder)",
-               "graph objects are not mutated between queries of WL-FILTERING engines (the class documents that its histogram cache goes "
-               "stale otherwise); engines without the filter are covered under in-place edits (C07_edits_wl_off)",
+               "graph objects are not mutated in place after a WL-FILTERING engine has compared them at equal order (the class documents "
+               "that its histogram cache goes stale otherwise); engines without the filter, edits of objects without cache entries and "
+               "new / derived objects are covered (C07_edits_wl_off, C07_safe_edits, C07_new_objects)",
                "custom node/edge comparators of the subgraph tests: the modelled family (eq, accept-all, symmetric wildcard, pattern-side wildcard); "
                "matcher callables of graph_isomorphism / find_graph_isomorphism are not used (default matchers)",
                "get_mappings non-emptiness: max_mappings != 0"]
@@ -203,6 +210,16 @@ def _sub_call(q, gs):
     _, variant, c, p, filt, ctype, names, eattr = q[:8]
     nn, nd, ex = _sub_opts(q)
     backend = ex.get("backend", "nx")
+    if "omit" in ex:
+        # options left out altogether: the functions' own (list-valued!) default arguments are used; the query carries their values
+        dflt = {"node_label_names": ["element", "charge"], "node_label_default": ["*", 0], "edge_attribute": "order", "use_filter": False,
+                "check_type": "induced"}
+        have = {"node_label_names": nn, "node_label_default": nd, "edge_attribute": eattr, "use_filter": filt, "check_type": ctype}
+        for k in ex["omit"]:
+            assert have[k] == dflt[k], "an omitted option must carry its default"
+        kw = {k: v for k, v in have.items() if k not in ex["omit"]}
+        f = {"s": SubgraphMatch.subgraph_isomorphism, "i": SubgraphMatch.is_subgraph, "g": GM.subgraph_isomorphism}[variant[0]]
+        return f(gs[c], gs[p], **kw)
     if (len(q) > 8 and q[8] is not None) or ex.get("cmp_none"):            # custom comparators (only the two subgraph_isomorphism functions take them)
         cm = q[8] if len(q) > 8 and q[8] is not None else ["eq", "eq"]
         nc, ec = _comparator(cm[0]), _comparator(cm[1])
@@ -382,6 +399,60 @@ def _edit_in_place(g, spec):
         g.add_edge(u, v, **a)
 
 
+def _derive(g, mode):
+    """A NEW graph object made from an existing one the way callers do it (everything networkx carries over comes along)."""
+    import copy
+    import networkx as nx
+    if mode == "copy":
+        return g.copy()
+    if mode == "sub":
+        return g.subgraph(list(g.nodes)).copy()
+    if mode == "relabel":
+        return nx.relabel_nodes(g, {n: n for n in g.nodes}, copy=True)
+    if mode == "class":
+        return nx.Graph(g)
+    if mode == "deepcopy":
+        return copy.deepcopy(g)
+    assert mode == "fresh"
+    return nx.Graph()
+
+
+def _edit_fine(g, spec):
+    """Make the object g equal to the graph value spec with the small edits a caller makes (no clear(): whatever rides on the object
+    stays): nodes / edges removed, added, attribute dicts overwritten."""
+    want = [n for n, _ in spec["nodes"]]
+    for n in list(g.nodes):
+        if n not in want:
+            g.remove_node(n)
+    for n, a in spec["nodes"]:
+        if n in g:
+            d = g.nodes[n]
+            d.clear()
+            d.update(a)
+        else:
+            g.add_node(n, **a)
+    wanted = {frozenset((u, v)) for u, v, _ in spec["edges"]}
+    for u, v in list(g.edges):
+        if frozenset((u, v)) not in wanted:
+            g.remove_edge(u, v)
+    for u, v, a in spec["edges"]:
+        if g.has_edge(u, v):
+            d = g[u][v]
+            d.clear()
+            d.update(a)
+        else:
+            g.add_edge(u, v, **a)
+    if list(g.nodes) != want:            # (the generators keep the node order; otherwise rebuild)
+        _edit_in_place(g, spec)
+
+
+def _new_object(gs, q, case):
+    """["new", j, i, mode, k]: object j is replaced by a new object derived from object i and edited into graph value k."""
+    g = _derive(gs[q[2]], q[3])
+    _edit_fine(g, case["graphs"][q[4]])
+    gs[q[1]] = g
+
+
 def _determined(spec, h, p):
     """Is the get_mappings result SET fixed by the specification (all induced embeddings)?"""
     return spec["mm"] is None and not (h.number_of_nodes() == p.number_of_nodes() and h.number_of_edges() == p.number_of_edges())
@@ -416,6 +487,8 @@ def _run_query(q, gs, engs, specs):
     if k == "fgi":                        # ["fgi", i, j, use_defaults, fast_invariant_check] -> mapping or None ({} for two empty graphs)
         if pos:
             return GM.find_graph_isomorphism(gs[q[1]], gs[q[2]], None, None, q[3], q[4])
+        if q[3] is True and q[4] is True:       # both at their defaults: left out
+            return GM.find_graph_isomorphism(gs[q[1]], gs[q[2]])
         return GM.find_graph_isomorphism(gs[q[1]], gs[q[2]], use_defaults=q[3], fast_invariant_check=q[4])
     raise AssertionError(k)
 
@@ -557,6 +630,10 @@ def impl(case):
                 _edit_in_place(gs[q[1]], case["graphs"][q[2]])
                 sigs[q[1]] = _graph_sig(gs[q[1]])
                 continue
+            if q[0] == "new":
+                _new_object(gs, q, case)
+                sigs[q[1]] = _graph_sig(gs[q[1]])
+                continue
             _Rec.events = []
             r = _run_query(q, gs, engs, case["engines"])
             ans.append(_obs(q, r, gs, case["engines"], _trace(q, gs)))
@@ -692,12 +769,14 @@ def coq_case(case):
         qs = []
         shared = []           # distinct (names, defaults, edge attribute, comparators) literals of the case, let-bound as z0, z1, ...
         ctypes = {"induced": 0}   # check_type strings, interned (the code only tests == "induced")
-        edits = any(q[0] == "edit" for q in case["queries"])
+        edits = any(q[0] in ("edit", "new") for q in case["queries"])
         wrap = (lambda t: "(HQ %s)" % t) if edits else (lambda t: t)
         for q in case["queries"]:
             k = q[0]
             if k == "edit":
                 qs.append("(HEdit %s %s)" % (cnat(q[1]), cnat(q[2])))
+            elif k == "new":
+                qs.append("(HNew %s %s)" % (cnat(q[1]), cnat(q[4])))
             elif k == "ctor":
                 qs.append(wrap("(QCtor %s)" % _craw(q[1])))
             elif k == "obj":
@@ -862,7 +941,7 @@ def oracle(case):
     cached = {}                                   # (object, node_attrs) -> version when a WL-filtering engine may have cached it
     fresh_graph = lambda i: G.to_nx(case["graphs"][cur[i]])
     answered = {}                                 # (kind, engine, i, j) -> answer, for the cross-check of isomorphic against get_mappings
-    edits = any(q[0] == "edit" for q in case["queries"])
+    edits = any(q[0] in ("edit", "new") for q in case["queries"])
     for t, q in enumerate(case["queries"]):
         if len(fails) >= 3:
             break
@@ -870,6 +949,15 @@ def oracle(case):
             _edit_in_place(gs[q[1]], case["graphs"][q[2]])
             cur[q[1]] = q[2]
             version[q[1]] += 1
+            continue
+        if q[0] == "new":
+            # a NEW object: nothing that was cached for the object it replaces or derives from may matter (C07_new_objects), so every
+            # later query on it is judged, filtering engines included
+            _new_object(gs, q, case)
+            cur[q[1]] = q[4]
+            version[q[1]] = 0
+            for kk in [kk for kk in cached if kk[0] == q[1]]:
+                del cached[kk]
             continue
         try:
             got_raw = _run_query(q, gs, engs, specs)
@@ -932,6 +1020,12 @@ def oracle(case):
                 iso_ans, maps_ans = (got, other) if k == "iso" else (other, got)
                 if bool(iso_ans) != bool(maps_ans):
                     bad("iso-maps-consistent", "%s: isomorphic answers %r but get_mappings on the same arguments returns %r" % (tag, iso_ans, maps_ans))
+        if k in ("pre", "maps") and not edits:
+            # a result is returned only if _pre_check lets the pair through (C07_maps_implies_pre_check): cross-check inside one history
+            answered[(k + "*", q[1], q[2], q[3])] = got
+            pre_ans, maps_ans = answered.get(("pre*", q[1], q[2], q[3])), answered.get(("maps*", q[1], q[2], q[3]))
+            if pre_ans is False and maps_ans:
+                bad("precheck-sound", "%s: _pre_check answers False but get_mappings on the same arguments returns %r" % (tag, maps_ans))
         if k == "iso":
             g1, g2 = gs[q[2]], gs[q[3]]
             nm1, em = _eng_match(spec)
@@ -1068,7 +1162,7 @@ def distribution(cases, obss):
             inc(d["attr_selection"], "/".join(s["na"]) + "|" + "/".join(s["ea"]))
         for q in c["queries"]:
             inc(d["query_kinds"], q[0] + (":" + q[1] if q[0] == "sub" else ""))
-            if q[0] in MCCS_KINDS:
+            if q[0] in MCCS_KINDS or q[0] == "new":
                 continue
             if q[0] == "sub":
                 d["sub_filter_on"] += bool(q[4])
@@ -1076,7 +1170,7 @@ def distribution(cases, obss):
             if q[0] == "maps" and len(c["graphs"][q[3]]["nodes"]) < len(c["graphs"][q[2]]["nodes"]):
                 d["maps_proper_subpattern"] += 1
         if isinstance(obs, list) and not (obs and obs[0] == "EXC"):
-            for q, o in zip([q for q in c["queries"] if q[0] != "edit"], obs):
+            for q, o in zip([q for q in c["queries"] if q[0] not in ("edit", "new")], obs):
                 if q[0] == "maps" and isinstance(o, list) and o[0] > 0:
                     d["maps_nonempty"] += 1
             for v in _verdicts(obs):
@@ -1216,7 +1310,7 @@ CTOR_POOL = [{}, {"backend": "nx"}, {"backend": "NX"}, {"backend": "Nx", "node_a
 
 def _odd_sub(rng, c, p, z=None):
     """Raw option values of the boolean subgraph entry points that only the option-handling code sees."""
-    z = rng.randrange(6) if z is None else z
+    z = rng.randrange(7) if z is None else z
     filt = rng.random() < 0.5
     ct = rng.choice(["induced", "mono"])
     six = ["sm", "smp", "gm", "gmp", "is", "isp"]
@@ -1232,8 +1326,14 @@ def _odd_sub(rng, c, p, z=None):
         return ["sub", rng.choice(six), c, p, filt, ct, NAMES_DEF, "order", None, {"nn": nn, "nd": nd}]
     if z == 4:       # comparators passed explicitly as None
         return ["sub", rng.choice(["sm", "smp", "gm", "gmp"]), c, p, filt, ct, rng.choice(NAMES_ALT[:5]), rng.choice(["order", ""]), None, {"cmp_none": True}]
-    # truthy / falsy spellings of use_filter
-    return ["sub", rng.choice(six), c, p, rng.choice([0, 1, "", "yes", None, 2]), ct, rng.choice(NAMES_ALT[:4]), "order"]
+    if z == 5:       # truthy / falsy spellings of use_filter
+        return ["sub", rng.choice(six), c, p, rng.choice([0, 1, "", "yes", None, 2]), ct, rng.choice(NAMES_ALT[:4]), "order"]
+    # options left out altogether (the functions' own default arguments — mutable lists — are used)
+    om = rng.choice([["node_label_names", "node_label_default"], ["node_label_names", "node_label_default", "edge_attribute"],
+                     ["node_label_names", "node_label_default", "edge_attribute", "use_filter", "check_type"], ["edge_attribute"]])
+    filt = False if "use_filter" in om else filt
+    ct = "induced" if "check_type" in om else ct
+    return ["sub", rng.choice(["sm", "gm", "is"]), c, p, filt, ct, NAMES_DEF, "order", None, {"omit": om}]
 
 
 def _present(g, rng, extra=6):
@@ -1245,6 +1345,13 @@ def _edit(g, rng):
     g = {"nodes": [[n, dict(a)] for n, a in g["nodes"]], "edges": [[u, v, dict(a)] for u, v, a in g["edges"]]}
     ids = [n for n, _ in g["nodes"]]
     z = rng.random()
+    if g["edges"] and rng.random() < 0.12:      # a bond loses / gains its annotation: absent is None for the matchers (NOT order 1)
+        e = rng.choice(g["edges"])[2]
+        if "order" in e:
+            e.pop("order")
+        else:
+            e["order"] = 1
+        return g
     if z < 0.2 and g["nodes"]:
         rng.choice(g["nodes"])[1]["element"] = rng.choice(["C", "O", "N"])
     elif z < 0.4 and g["nodes"]:
@@ -1273,6 +1380,10 @@ def _rand_graph(rng, n, hc=True):
         a.pop("aromatic", None)
         if not hc or rng.random() < 0.15:
             a.pop("hcount", None)
+    if rng.random() < 0.2:               # some un-annotated bonds (an absent edge attribute is None for the matchers, 1 for graph_isomorphism)
+        for e in g["edges"]:
+            if rng.random() < 0.3:
+                e[2].pop("order", None)
     return g
 
 
@@ -1303,7 +1414,13 @@ def _edit_cp(g, rng):
     """Count-preserving edit: one attribute value changes, nodes and edges stay."""
     g = {"nodes": [[n, dict(a)] for n, a in g["nodes"]], "edges": [[u, v, dict(a)] for u, v, a in g["edges"]]}
     z = rng.random()
-    if g["edges"] and z < 0.35:
+    if g["edges"] and rng.random() < 0.1:       # annotation of one bond removed / added (order 1)
+        e = rng.choice(g["edges"])[2]
+        if "order" in e:
+            e.pop("order")
+        else:
+            e["order"] = 1
+    elif g["edges"] and z < 0.35:
         e = rng.choice(g["edges"])[2]
         e["order"] = rng.choice([x for x in (1, 2, 1.5) if x != e.get("order")])
     elif g["nodes"]:
@@ -1555,6 +1672,34 @@ def gen_cases(tier, rng):
         if rng.random() < 0.5:
             qs += [["edit", 0, 0]] + some(rng.randint(1, 3))
         cases.append(dict(kind="edited", graphs=vals, objects=2, engines=es, queries=qs))
+    # ---- NEW graph objects derived from objects of the history (copy / subgraph().copy() / relabel_nodes / Graph(g) / deepcopy), then
+    #      edited by the caller and compared with independently built graphs: nothing cached for the source may ride along
+    for _ in range(150 if tier == "quick" else 600):
+        base = _rand_graph(rng, rng.randint(2, 5), hc=rng.random() < 0.4)
+        v_ed = _edit_cp(base, rng) if rng.random() < 0.6 else _edit(base, rng)
+        if [n for n, _ in v_ed["nodes"]] != [n for n, _ in base["nodes"]]:
+            v_ed = _edit_cp(base, rng)
+        vals = [base, _present(base, rng, extra=9), _present(base, rng, extra=9), _present(v_ed, rng, extra=9), v_ed, base]
+        es = _engines(rng)
+        for s in es:
+            if "wl1_filter" not in s.get("omit", ()):
+                s["wl"] = rng.random() < 0.8
+
+        def some(k, pairs):
+            out = []
+            for _ in range(k):
+                kind = rng.choice(["iso", "iso", "maps", "pre", "sub"])
+                i, j = rng.choice(pairs)
+                if kind == "sub":
+                    out.append(["sub", rng.choice(["sm", "gm", "is"]), i, j, rng.random() < 0.5, rng.choice(["induced", "mono"]), NAMES_DEF, "order"])
+                else:
+                    out.append([kind, rng.randrange(len(es)), i, j])
+            return out
+        mode = rng.choice(["copy", "copy", "sub", "relabel", "class", "deepcopy", "fresh"])
+        qs = some(rng.randint(3, 6), [(0, 1), (1, 0), (0, 0)]) + [["new", 2, 0, mode, 4]] + some(rng.randint(3, 6), [(2, 3), (3, 2), (2, 0), (0, 2)])
+        if rng.random() < 0.5:      # a second generation: derived from the derived object, edited back to the original value
+            qs += [["new", 1, 2, rng.choice(["copy", "sub", "relabel", "class"]), 5]] + some(rng.randint(2, 4), [(1, 0), (0, 1), (1, 2), (1, 3)])
+        cases.append(dict(kind="derived", graphs=vals, objects=4, engines=es, queries=qs))
     noh = {n: G.iso_classes(n, G.MOL_NODE_LABELS_NOH, G.MOL_EDGE_LABELS) for n in (1, 2, 3, 4)}
     wh = {n: G.iso_classes(n, G.MOL_NODE_LABELS, G.MOL_EDGE_LABELS) for n in (1, 2, 3)}
     if tier == "thorough":
